@@ -10,6 +10,7 @@ import json
 import os
 import signal
 import sys
+import time
 import traceback
 
 HERE = os.path.dirname(os.path.abspath(__file__))
@@ -54,6 +55,17 @@ def main():
 
     signal.signal(signal.SIGALRM, on_alarm)
     done = []
+    hb_path = outp + ".hb"
+
+    def beat():
+        # the parent stops a child whose heartbeat stands still for several case limits (a child can wedge itself when the
+        # alarm interrupts it inside a lock: seen once, at load 300, as a 46-minute hang)
+        try:
+            with open(hb_path, "w") as h:
+                h.write("x")
+        except OSError:
+            pass
+    beat()
     # the tour through every module of the library is made once, in the middle of the shard (harness/warmup.py)
     n_lines = sum(1 for _ in open(inp))
     tour_at = n_lines // 2 if os.environ.get("VERIF_WARMUP", "1") == "1" and not getattr(mod, "NO_WARMUP", False) else -1
@@ -61,6 +73,7 @@ def main():
         for k_line, line in enumerate(f):
             if k_line == tour_at:
                 try:
+                    beat()
                     import warmup
                     signal.setitimer(signal.ITIMER_REAL, 60)
                     try:
@@ -71,6 +84,8 @@ def main():
                     pass
             c = json.loads(line)
             rec = {"id": c["id"]}
+            if k_line == 5 and os.environ.get("VERIF_TEST_WEDGE") == "1" and not os.environ.get("VERIF_TIMEOUT_FACTOR"):
+                time.sleep(100000)          # self-test of the parent's watchdog (harness/core.py): never set in a real run
             try:
                 signal.setitimer(signal.ITIMER_REAL, limit)
                 try:
@@ -89,6 +104,7 @@ def main():
                 rec["crash"] = "harness error: " + traceback.format_exc()[-800:]
             g.write(json.dumps(rec) + "\n")
             g.flush()
+            beat()
             if implutil.TIMED_OUT[0]:
                 n_timeouts += 1
                 implutil.TIMED_OUT[0] = False
@@ -130,6 +146,7 @@ def main():
                 warnings.showwarning = lambda *a, **k: None
             step = max(1, len(done) // n2)
             for c, out1, ok1 in reversed(done[::step][:n2]):
+                beat()
                 try:
                     signal.setitimer(signal.ITIMER_REAL, limit)
                     try:
